@@ -397,11 +397,18 @@ impl<'dbg> FatDieRef<'dbg, Function> {
     }
 
     pub fn prolog_end_place(&self) -> Result<PlaceDescriptor<'_>, Error> {
-        let mut place = self.prolog_start_place()?;
+        let start_place = self.prolog_start_place()?;
+        let end_addr = self.end_instruction()?;
+
+        let mut place = start_place.clone();
         while !place.prolog_end {
             match place.next() {
-                None => break,
-                Some(next_place) => place = next_place,
+                Some(next_place) if !next_place.end_sequence && next_place.address < end_addr => {
+                    place = next_place
+                }
+                // no prolog end is marked inside the function,
+                // do not walk into the lines of the functions behind it
+                _ => return Ok(start_place),
             }
         }
 
